@@ -14,6 +14,8 @@ while args and args[0].startswith("--"):
         BASE = args[1]; args = args[2:]
     elif args[0] == "--round2":
         GLOB = "/tmp/seed2-C*/SEED/*/"; RENAME = {"A": "C", "B": "D"}; args = args[1:]
+    elif args[0] == "--round6":
+        GLOB = "/tmp/seed6-C*/SEED/*/"; RENAME = {"A": "K", "B": "L"}; args = args[1:]
     elif args[0] == "--round5":
         GLOB = "/tmp/seed5-C*/SEED/*/"; RENAME = {"A": "I", "B": "J"}; args = args[1:]
     elif args[0] == "--round4":
@@ -35,7 +37,7 @@ def demo_cmd(d, tree):
     return None
 
 def confirm(seed_dir):
-    pid = seed_dir.split("/")[2].replace("seed5-", "").replace("seed4-", "").replace("seed3-", "").replace("seed2-", "").replace("seed-", "")
+    pid = seed_dir.split("/")[2].replace("seed6-", "").replace("seed5-", "").replace("seed4-", "").replace("seed3-", "").replace("seed2-", "").replace("seed-", "")
     x = os.path.basename(seed_dir)
     x = RENAME.get(x, x)
     sid = "%s-%s" % (pid, x)
